@@ -1341,9 +1341,9 @@ class Exec:
         try:
             r = invs[k](st)
         except KeyError as ex_:
-            # the invariant names a local variable that the current source no longer has: it cannot be stated, hence not proved
-            self.loops_without_invariant.add(k)
-            return z3.BoolVal(False) if not assume else z3.BoolVal(True)
+            # the invariant names a local variable that the current source no longer has (e.g. after a renaming): the contract does not fit the
+            # source any more -- no verdict from this tier (the bounded twin decides), never an alarm for a mere renaming
+            raise OutOfReach(f'invariant of loop {k} refers to the local {ex_} which the source no longer has')
         lem = None
         if isinstance(r, dict): r, lem = r['prove'], r.get('assume')
         if isinstance(r, (list, tuple)): r = z3.And(*r) if r else z3.BoolVal(True)
